@@ -32,9 +32,11 @@
    Event 4  KField 3/4 Ctx/Proc net/runtime/events.rs:196 AsyncWakeupEvent.module
    Runtime  KField 0  Task      tokio: the runtime / LocalSet owns every spawned future (modelled, not read off des)
    Queue    KField 0  Slot      time/driver.rs:20  TimerQueue.pending: VecDeque<Arc<TimerSlot>>
-   Slot     KField 0  Queue     time/driver.rs:27  TimerSlot.queue: Arc<TimerQueue>      <- closes a strong cycle
+   Slot     KField 0  Queue     time/driver.rs:30  TimerSlot.queue -- ONLY BEFORE fix 012bc88, when it was an
+                                Arc<TimerQueue> and closed a strong cycle with the line above (now a Weak, see
+                                below); allowed by [edge_ok true] only
 
-   WEAK EDGES (never counted): Ctx.me, Ctx.parent (ctx/mod.rs:52,64; refs.rs:18-19), Gate.owner (gate.rs:18),
+   WEAK EDGES (never counted): TimerSlot.queue: Weak<TimerQueue> (driver.rs:30,117), Ctx.me, Ctx.parent (ctx/mod.rs:52,64; refs.rs:18-19), Gate.owner (gate.rs:18),
    TimerSlotEntryHandle.handle: Weak<TimerSlot> held by a sleeping task (driver.rs:40), the Waker in
    TimerSlotEntry (driver.rs:32; tokio drops the future on runtime shutdown whatever wakers exist),
    BufferContext.globals: Weak<Globals> (runtime/ctx.rs:20).
@@ -51,7 +53,7 @@ Definition kf (k : ekind) (n : N) : bool := match k with KField f => N.eqb f n |
 Definition kconn (k : ekind) : bool := match k with KConn _ _ => true | _ => false end.
 Definition kconnch (k : ekind) : bool := match k with KConnCh _ => true | _ => false end.
 
-(* [pin] = true: the schema of the pinned tree (before fix 6ce5d8e) *)
+(* [pin] = true: the schema of the pinned tree (before the fixes 6ce5d8e and 012bc88) *)
 Definition edge_ok (pin : bool) (a : tag) (k : ekind) (b : tag) : bool :=
   match a, b with
   | TGlobals, TTree => kf k 0
@@ -76,7 +78,7 @@ Definition edge_ok (pin : bool) (a : tag) (k : ekind) (b : tag) : bool :=
   | TEvent e, TProc _ => kf k 4 && (N.eqb e 1 || N.eqb e 3 || N.eqb e 4)
   | TRuntime, TTask _ => kf k 0
   | TQueue, TSlot => kf k 0
-  | TSlot, TQueue => kf k 0
+  | TSlot, TQueue => pin && kf k 0
   | _, _ => false
   end.
 
@@ -87,7 +89,6 @@ Definition trank (t : tag) : nat :=
   | TRuntime => 6 | TTask _ => 5 | TChannel => 4 | TMsg _ => 3 | TGate => 2 | TQueue => 1 | TSlot => 0
   end.
 Definition tdepth (t : tag) : nat := match t with TCtx d => d | _ => 0 end.
-Definition timer_tag (t : tag) : bool := match t with TSlot | TQueue => true | _ => false end.
 
 (* what a user can observe being dropped *)
 Definition user_tag (t : tag) : bool :=
@@ -282,11 +283,13 @@ Definition dequeue (pin : bool) (s : st) (ch : nat) : st * option nat :=
 Definition new_task (s : st) (rt : nat) (cap : N) : st * nat :=
   let '(s1, t) := st_alloc s (TTask cap) in (st_edge s1 rt (KField 0) t, t).
 
-(* TimerQueue::add, Err(insert_at) branch (driver.rs:118-128): TimerSlot::new(time, self.clone()),
+(* TimerQueue::add, Err(insert_at) branch (driver.rs:116-127): TimerSlot::new(time, <handle to self>),
    pending.insert(.., Arc::new(slot)) *)
-Definition new_slot (s : st) (q : nat) : st * nat :=
+Definition new_slot (pin : bool) (s : st) (q : nat) : st * nat :=
   let '(s1, sl) := st_alloc s TSlot in
-  (st_edge (st_edge s1 q (KField 0) sl) sl (KField 0) q, sl).
+  let s2 := st_edge s1 q (KField 0) sl in
+  (* the slot's way back to its queue: Arc::downgrade(self) (driver.rs:117); self.clone() before 012bc88 *)
+  (if pin then st_edge s2 sl (KField 0) q else st_weak s2 sl 0 q, sl).
 
 (* a fresh tokio runtime for a module: Rt::current (rt.rs:79-93) / AsyncCoreExt::reset (rt.rs:67-77) *)
 Definition new_runtime (s : st) (ctx : nat) : st * nat :=
